@@ -1,5 +1,7 @@
 """C10 - every setting crypt_gensalt* produces is accepted by crypt and kept
 (DESIGN §4 C10)."""
+import os
+
 from .. import common, decode, facts, gen, pool, rt
 from ..pool import Death, Timeout
 
@@ -35,11 +37,11 @@ def prefix_variants(rng, m):
     return out
 
 
-def make_cases(seed, tier):
+def make_cases(seed, tier, only=None, default_method="yescrypt"):
     cases = []
     nrs = list(range(0, 65)) + ([65, 70, 100, 128, 200, 255, 256] if tier == "quick" else list(range(65, 257)))
-    for m in gen.METHODS + [None]:
-        fm = m or "yescrypt"
+    for m in (only if only is not None else gen.METHODS + [None]):
+        fm = m or default_method
         for nr in nrs:
             for pat in (["rnd", "ff", "zero"] if tier == "quick" else ["rnd", "ff", "zero"] + ["rnd%d" % k for k in range(9)]):
                 rng = rt.rng_for(seed, PID, m, nr, pat)
@@ -53,9 +55,43 @@ def make_cases(seed, tier):
     return cases
 
 
-def do_chunk(chunk):
+# selections in which a method is built without the sibling it shares code with: what crypt_gensalt hands out
+# there must still be hashed by crypt there
+CONFIGS = [("gost-only", ["gost_yescrypt"]), ("scrypt-only", ["scrypt"]), ("gost-scrypt-sha512", ["gost_yescrypt", "scrypt", "sha512crypt"]),
+           ("bigcrypt-only", ["bigcrypt"]), ("descrypt-md5", ["descrypt", "md5crypt"]), ("bcrypt_a-only", ["bcrypt_a", "sha256crypt"])]
+
+
+def do_config(args):
+    from . import C19
+    import shutil
+    (name, en), seed, tier = args
+    bname, en, exe, err, _ = C19.build_config((PID + "-" + name, en, None,
+                                               "-O1 -g -fno-omit-frame-pointer -fsanitize=address,undefined "
+                                               "-fno-sanitize-recover=all"))
+    if exe is None:
+        acc = common.Acc()
+        acc.inconc("configuration %s does not build: %s" % (name, err[-300:]))
+        return acc
+    try:
+        dflt = next((m for m in gen.DEFAULT_ORDER if m in en), None)
+        cases = [c for c in make_cases(seed + 5, "quick", only=[m for m in gen.METHODS if m in en] + ([None] if dflt else []),
+                                       default_method=dflt or "yescrypt")
+                 if c["nr"] in (0, 1, 2, 3, 8, 15, 16, 17, 24, 32, 64, 100)]
+        acc = common.Acc()
+        for ch in pool.chunks(cases, 24):
+            acc.merge(do_chunk(ch, exe))
+        acc.count("configuration_cases", len(cases))
+    finally:
+        shutil.rmtree(os.path.dirname(exe), ignore_errors=True)
+    for v in acc.viol:
+        v["key"] = v["key"] + "@" + name
+        v["detail"] = "[--enable-hashes=%s] %s" % (",".join(en), v["detail"])
+    return acc
+
+
+def do_chunk(chunk, exe=None):
     acc = common.Acc()
-    w = rt.vw(FL)
+    w = pool.Worker(exe) if exe else rt.vw(FL)
     setup = [rt.obj_line(0, align=2, fill="r", seed=4), "ledger 1", "preerrno %d" % rt.stale_errno(len(chunk[0]["rb"] or b"") + chunk[0]["count"] % 7 + len(chunk))]
     lines = []
     for c in chunk:
@@ -171,6 +207,8 @@ def do_chunk(chunk):
         if len(acc.samples) < 3:
             acc.sample({"prefix": (c["prefix"] or b"(NULL)").decode("latin1"), "count": c["count"],
                         "nrbytes": c["nr"], "generated": g.decode("latin1"), "hashed": nh})
+    if exe:
+        w.stop()
     return acc
 
 
@@ -220,6 +258,8 @@ def run(tier):
     cases = make_cases(run_.seed, tier)
     for acc in pool.pmap(do_chunk, pool.chunks(cases, 24)):
         run_.merge(acc)
+    for acc in pool.pmap(do_config, [(c, run_.seed, tier) for c in CONFIGS]):
+        run_.merge(acc)
     ns = 20 if tier == "quick" else 1500
     for acc in pool.pmap(do_static, [(run_.seed * 50 + i, ns) for i in range(16)]):
         run_.merge(acc)
@@ -236,6 +276,8 @@ def run(tier):
         "crypt_of_generated_setting": int(a.n.get("crypt_of_generated", 0)),
         "not_hashed_too_expensive": int(a.n.get("not_hashed", 0)),
         "static_result_passed_to_crypt": int(a.n.get("static_to_crypt", 0)),
+        "cases_in_other_hash_selections": int(a.n.get("configuration_cases", 0)),
+        "other_hash_selections": [n_ + "=" + ",".join(h_) for n_, h_ in CONFIGS],
         "flavour": FL,
     }
     req = {m: a.n.get("gs/" + m, 0) for m in facts.GENSALT_METHODS + ["NULL"]}
